@@ -17,6 +17,7 @@ CONSTANTS
   MaxNow = 40
   FixD1 = TRUE
   Msgs <- MsgsD
+  Apps <- AppsRich
 CONSTRAINT TimeBound
 VIEW view
 INVARIANT NoMonitorRejects
